@@ -32,7 +32,11 @@ def safe_oracle(mod, case, obs):
                 'what': 'an exception escaped to the caller: %s: %s (%s)' % (
                     obs['raised'], obs.get('msg', ''), ' | '.join(obs.get('tb', [])[-2:])[:200])}
     try:
-        return mod.oracle(case, obs)
+        f = mod.oracle(case, obs)
+        if f is None and getattr(mod, 'RAISED_IS_FAILURE', False):
+            from harness import muxprop
+            f = muxprop.hostile_environment_failure(case, obs)
+        return f
     except Exception as e:   # an oracle that cannot judge an observation must not pass silently
         return {'sig': 'oracle-crashed', 'what': 'the oracle could not evaluate this observation: %s: %s' % (
             type(e).__name__, str(e)[:200])}
